@@ -15,7 +15,10 @@ static unsigned w_prop_bit(const char *id) { return !strcmp(id, "C03") ? PC03 : 
 
 #define MAXN 8
 #define MAXB 16
-struct elem { long pad; int idx; struct cstl_hash_node hn; long tail; };
+struct elem { long pad; int idx; struct cstl_hash_node hn; long pad2; struct cstl_hash_node hn2; long tail; };
+/* the two table objects are initialised with DIFFERENT node offsets (hn / hn2): swap must carry the offset along with the table */
+static size_t m_off[2];
+#define NODE_OF(i, off) ((struct cstl_hash_node *)((char *)&pool[i] + (off)))
 static struct elem pool[MAXN];
 static int N, keys[MAXN], nalpha, alpha[MAXN + 1], maxdup;
 static int NCOUNTS, counts[8], NF;
@@ -111,9 +114,10 @@ static void w_init(void)
     shim_reset();
     __asan_unpoison_memory_region(pool, sizeof pool);
     memset(pool, 0x5A, sizeof pool);
-    for (i = 0; i < N; i++) { pool[i].idx = i; pool[i].pad = 0x1111; pool[i].tail = 0x2222; pool[i].hn.key = (size_t)keys[i]; pool[i].hn.next = NULL; m_member[i] = 0; }
+    for (i = 0; i < N; i++) { pool[i].idx = i; pool[i].pad = 0x1111; pool[i].tail = 0x2222; pool[i].pad2 = 0x3333; pool[i].hn.key = (size_t)keys[i]; pool[i].hn.next = NULL; pool[i].hn2.key = (size_t)keys[i]; pool[i].hn2.next = NULL; m_member[i] = 0; }
     m_count = 0; m_resized = 0; m_nreq = 0; m_freq = F_MUL; m_forced_settled = 1; cur = 0; m_budget = -1; m_since = 0;
-    for (t = 0; t < 2; t++) { memset(&TB[t], 0xA5, sizeof TB[t]); cstl_hash_init(&TB[t], offsetof(struct elem, hn)); }
+    m_off[0] = offsetof(struct elem, hn); m_off[1] = offsetof(struct elem, hn2);
+    for (t = 0; t < 2; t++) { memset(&TB[t], 0xA5, sizeof TB[t]); cstl_hash_init(&TB[t], m_off[t]); }
 }
 #define T (&TB[cur])
 
@@ -134,7 +138,11 @@ static int idx_of(const void *e)
     if ((uintptr_t)e < (uintptr_t)pool || d >= sizeof(struct elem) * (size_t)N || d % sizeof(struct elem)) return -1;
     return (int)(d / sizeof(struct elem));
 }
-static int idx_of_node(const struct cstl_hash_node *n) { return idx_of((const void *)((uintptr_t)n - offsetof(struct elem, hn))); }
+static int idx_of_node(const struct cstl_hash_node *n)
+{
+    int i = idx_of((const void *)((uintptr_t)n - offsetof(struct elem, hn)));
+    return i >= 0 ? i : idx_of((const void *)((uintptr_t)n - offsetof(struct elem, hn2)));
+}
 
 /* ---- snapshot of the public struct: which bucket holds which node, dirty flags ---- */
 struct snap { int pending; size_t count, rhcount, bound; int dirty[MAXB]; int bucket_of[MAXN]; int nnodes[MAXB]; int ndirty; int bad; };
@@ -226,7 +234,7 @@ static void check_fresh(unsigned props, int t, const char *when)
     char a[200], b[200]; size_t save = mc_kbn, n; static struct cstl_hash fresh, keep;
     mc_kbn = 0; canon_one(t); n = mc_kbn < 199 ? mc_kbn : 199; memcpy(a, mc_kb, n); a[n] = 0;
     /* serialise a freshly initialised object through the same function */
-    keep = TB[t]; cstl_hash_init(&fresh, offsetof(struct elem, hn)); TB[t] = fresh;
+    keep = TB[t]; cstl_hash_init(&fresh, m_off[t]); TB[t] = fresh;
     mc_kbn = 0; canon_one(t); n = mc_kbn < 199 ? mc_kbn : 199; memcpy(b, mc_kb, n); b[n] = 0;
     TB[t] = keep; mc_kbn = save;
     MC_CHECK(props, !strcmp(a, b), "%s the table object is not like a freshly initialised one: %s vs fresh %s", when, a, b);
@@ -388,6 +396,7 @@ static void w_apply(mc_op_t o)
     case O_SWAP:
         SHIM_CALL(ab, cstl_hash_swap(&TB[0], &TB[1]));
         cur = 1 - cur;
+        { size_t t_ = m_off[0]; m_off[0] = m_off[1]; m_off[1] = t_; }
         if (!ab && mc_checking) check_fresh(PC03, 1 - cur, "after swap with a never-resized table,");
         break;
     case O_FOREACH: case O_FOREACH_STOP: case O_FOREACH_ERASE: {
@@ -476,7 +485,7 @@ static void w_audit(void)
         MC_CHECK(PC19, heading == m_nreq, "the table is heading for %zu buckets, the most recent request was %zu", heading, m_nreq);
         if (m_freq != F_MUL) MC_CHECK(PC19, fid(s.pending ? T->bucket.rh.hash : T->bucket.hash) == m_freq, "the table is heading for hash function #%d, the most recent request was #%d", fid(s.pending ? T->bucket.rh.hash : T->bucket.hash), m_freq);
     }
-    for (k = 0; k < N; k++) MC_CHECK(PC03, pool[k].pad == 0x1111 && pool[k].tail == 0x2222 && pool[k].idx == k && pool[k].hn.key == (size_t)keys[k], "element %d: key or bytes outside its hash node were modified", k);
+    for (k = 0; k < N; k++) MC_CHECK(PC03, pool[k].pad == 0x1111 && pool[k].tail == 0x2222 && pool[k].idx == k && pool[k].pad2 == 0x3333 && pool[k].hn.key == (size_t)keys[k] && pool[k].hn2.key == (size_t)keys[k], "element %d: key or bytes outside its hash node were modified", k);
 }
 
 /* canonical key */
@@ -499,7 +508,7 @@ static void canon_one(int t)
 }
 static void w_canon(void)
 {
-    KB_C('c'); KB_U((unsigned)cur); canon_one(0); canon_one(1);
+    KB_C('c'); KB_U((unsigned)cur); canon_one(0); canon_one(1); KB_C('O'); KB_U(m_off[0]); KB_C(','); KB_U(m_off[1]);
     KB_C('m'); KB_U(m_nreq); KB_C('f'); KB_U((unsigned)m_freq); KB_C(m_forced_settled ? 's' : 'u'); KB_C(m_resized ? 'R' : '-');
     { int i; for (i = 0; i < N; i++) KB_C(m_member[i] ? '1' : '0'); }
     if (m_budget >= 0) { KB_C('B'); KB_U((unsigned)m_budget); KB_C('.'); KB_U((unsigned)m_since); }
